@@ -11,6 +11,7 @@ Two ways to produce "main died just before effect i":
   kill:     really die there (optionally after flushing a prefix) with os._exit.
 """
 import builtins
+from sim.kernel import hash64
 import hashlib
 import os
 import shutil
@@ -204,7 +205,11 @@ class FsSeam:
         self._snapshot(i, kind, rel, None, None)
         if self.torn and wf is not None and kind in ("close", "flush") and wf._written:
             w = wf._written
-            for j in sorted(set([1, len(w) // 2, len(w) - 1])):
+            # fixed cuts plus two seeded ones: one inside the first field of the record (offsets 2..8,
+            # e.g. in the middle of a path number) and one anywhere
+            h = hash64(self.sim.k.seed, "torn", i)
+            cuts = {1, len(w) // 2, len(w) - 1, 2 + h % 7, 1 + (h >> 8) % max(1, len(w) - 1)}
+            for j in sorted(cuts):
                 if 0 < j < len(w):
                     self._snapshot(i, kind, rel, j, wf)
 
